@@ -269,6 +269,31 @@ func TestVerifH8(t *testing.T) {
 			vt.Alarm("none-generator-address", "req=%d addr=%v err=%v", req+1, a, err)
 		}
 	}
+	// the same for every shape of configured relay address (IPv6, IPv4-mapped, 16-byte IPv4) and listen address
+	for _, tc := range []struct{ relay, listen, nw4 string }{{"2001:db8::9", "::1", "6"}, {"2001:db8::9", "fd00::1", "6"}, {"::ffff:203.0.113.9", "127.0.0.1", "4"},
+		{"203.0.113.77", "0.0.0.0", "4"}, {"fd00::77", "::", "6"}} {
+		for _, req := range []int{0, 40123} {
+			base, _ := stdnet.NewNet()
+			want := net.ParseIP(tc.relay)
+			st := &RelayAddressGeneratorStatic{RelayAddress: want, Address: tc.listen, Net: &h8Net{Net: base, used: map[int]bool{}}}
+			_, a, err := st.AllocatePacketConn(AllocateListenerConfig{Network: "udp" + tc.nw4, RequestedPort: req})
+			if err != nil || !a.(*net.UDPAddr).IP.Equal(want) || (req != 0 && a.(*net.UDPAddr).Port != req) {
+				vt.Alarm("static-generator-address", "relay=%s listen=%s req=%d addr=%v err=%v", tc.relay, tc.listen, req, a, err)
+			}
+			st.Net = &h8Net{Net: base, used: map[int]bool{}}
+			_, a, err = st.AllocateListener(AllocateListenerConfig{Network: "tcp" + tc.nw4, RequestedPort: req})
+			if err != nil || !a.(*net.TCPAddr).IP.Equal(want) || (req != 0 && a.(*net.TCPAddr).Port != req) {
+				vt.Alarm("static-generator-address", "tcp relay=%s listen=%s req=%d addr=%v err=%v", tc.relay, tc.listen, req, a, err)
+			}
+			vt.Stat("h8.static." + tc.nw4)
+			pr := &RelayAddressGeneratorPortRange{RelayAddress: want, Address: tc.listen, MinPort: 50000, MaxPort: 50003, MaxRetries: 10, Net: &h8Net{Net: base, used: map[int]bool{}}}
+			_ = pr.Validate()
+			_, a, err = pr.AllocatePacketConn(AllocateListenerConfig{Network: "udp" + tc.nw4, RequestedPort: req})
+			if err != nil || !a.(*net.UDPAddr).IP.Equal(want) || (req != 0 && a.(*net.UDPAddr).Port != req) {
+				vt.Alarm("advertised-ip-wrong", "range generator relay=%s listen=%s req=%d addr=%v err=%v", tc.relay, tc.listen, req, a, err)
+			}
+		}
+	}
 	// real loopback sockets: two live allocations must never share a relay port
 	for _, network := range []string{"udp4", "tcp4"} {
 		base, _ := stdnet.NewNet()
